@@ -15,6 +15,7 @@ import (
 func init() {
 	pseudoHandlers["DropColl"] = func(r *Run, op Op) { r.DropCollStep(op) }
 	pseudoHandlers["CreateColl"] = func(r *Run, op Op) { r.CreateCollStep(op) }
+	pseudoHandlers["GhostWrite"] = func(r *Run, op Op) { r.GhostWriteStep(op) }
 }
 
 func (r *Run) listColls(h int) ([]string, error) {
@@ -58,6 +59,13 @@ func (r *Run) DropCollStep(op Op) {
 		return
 	}
 	r.SyncFeeds()
+	var gh ghost
+	if op.C != 0 {
+		gh = ghost{C: op.C}
+		for h := range w.Handles {
+			gh.DS = append(gh.DS, w.Coll(h, op.C))
+		}
+	}
 	err := w.Handles[op.H].DropDataStore(dsName(w.Cfg.Colls[op.C]))
 	if op.C == 0 {
 		if err == nil {
@@ -71,6 +79,7 @@ func (r *Run) DropCollStep(op Op) {
 		return
 	}
 	r.DropHappened = true
+	r.Ghosts = append(r.Ghosts, gh)
 	w.Model.Colls[op.C].Dropped = true
 	for h := range w.colls {
 		w.colls[h][op.C] = nil
@@ -160,6 +169,111 @@ func (r *Run) CreateCollStep(op Op) {
 	}
 	r.frame(-1, "", "CreateDataStore("+w.Cfg.Colls[op.C]+")")
 	r.isoProbe(op.C, "CreateDataStore")
+}
+
+// ghost: the data store objects a client obtained for a collection before it was dropped.
+type ghost struct {
+	C  int
+	DS []sgbucket.DataStore // per handle
+}
+
+// GhostWriteStep uses a data store object of a dropped collection (obtained before the drop). What
+// the call itself returns is a don't-care; it is addressed to a collection that no longer exists,
+// so no existing collection (and no other bucket) may change. Only done while no collection of
+// that name exists again (whether such an object follows a re-creation is left open).
+func (r *Run) GhostWriteStep(op Op) {
+	w := r.W
+	tr := StepTrace{Op: op, Outcome: "ghost"}
+	defer func() { r.Trace = append(r.Trace, tr) }()
+	gi, _ := op.Arg["g"].(float64)
+	if gx, ok := op.Arg["g"].(int); ok {
+		gi = float64(gx)
+	}
+	if len(r.Ghosts) == 0 {
+		tr.Outcome = "no-ghost"
+		return
+	}
+	g := r.Ghosts[int(gi)%len(r.Ghosts)]
+	if !w.Model.Colls[g.C].Dropped {
+		tr.Outcome = "re-created"
+		return
+	}
+	r.SyncFeeds()
+	ds := g.DS[op.H%len(g.DS)]
+	what, _ := op.Arg["what"].(string)
+	nDev := len(r.Devs)
+	p := safely(func() {
+		switch what {
+		case "Set":
+			_ = ds.Set(op.Key, 0, nil, []byte(`{"ghost":1}`))
+		case "SetExp":
+			_ = ds.Set(op.Key, nowSec()+3600, nil, []byte(`{"ghost":2}`))
+		case "Delete":
+			_ = ds.Delete(op.Key)
+		case "Touch":
+			_, _ = ds.Touch(op.Key, nowSec()+1800)
+		case "Add":
+			_, _ = ds.Add(op.Key, 0, []byte(`{"ghost":3}`))
+		case "WriteCasCur":
+			// with the CAS the key currently has in some existing collection
+			var cas uint64
+			for ci := range w.Cfg.Colls {
+				if !w.Model.Colls[ci].Dropped {
+					if st := w.Model.Get(ci, op.Key); st.Present {
+						cas = st.Cas
+					}
+				}
+			}
+			_, _ = ds.WriteCas(op.Key, 0, cas, []byte(`{"ghost":4}`), 0)
+		case "WriteWithXattrs":
+			_, _ = ds.WriteWithXattrs(ctx, op.Key, 0, 0, []byte(`{"ghost":5}`), map[string][]byte{"_sync": []byte(`{"g":1}`)}, nil, nil)
+		case "Incr":
+			_, _ = ds.Incr(op.Key, 1, 1, 0)
+		case "Update":
+			_, _ = ds.Update(op.Key, 0, func(cur []byte) ([]byte, *uint32, bool, error) { return []byte(`{"ghost":6}`), nil, false, nil })
+		}
+	})
+	if p != "" {
+		r.dev("ghost.panic", []string{"C11", "C20"}, "%s through a data store object of the dropped collection %s panicked: %s", what, w.Cfg.Colls[g.C], p)
+	}
+	r.frame(-1, "", what+" through a data store object of the dropped collection "+w.Cfg.Colls[g.C])
+	r.isoProbeAll("ghost " + what)
+	if len(r.Devs) > nDev {
+		tr.Outcome = "DEVIATION"
+	}
+}
+
+var ghostWhats = []string{"Set", "SetExp", "Delete", "Touch", "Add", "WriteCasCur", "WriteWithXattrs", "Incr", "Update"}
+
+func genGhostWrite(rt *rapid.T, r *Run) (Op, bool) {
+	var cands []int
+	for gi, g := range r.Ghosts {
+		if r.W.Model.Colls[g.C].Dropped {
+			cands = append(cands, gi)
+		}
+	}
+	if len(cands) == 0 {
+		return Op{}, false
+	}
+	keys := map[string]bool{}
+	for ci := range r.W.Cfg.Colls {
+		for _, k := range r.W.Model.Keys(ci) {
+			keys[k] = true
+		}
+	}
+	var ks []string
+	for k := range keys {
+		ks = append(ks, k)
+	}
+	sort.Strings(ks)
+	if len(ks) == 0 {
+		ks = []string{"a"}
+	}
+	op := Op{K: "GhostWrite", Key: pick(rt, ks, "ghost.key"), Arg: map[string]any{"g": pick(rt, cands, "ghost.g"), "what": pick(rt, ghostWhats, "ghost.what")}}
+	if len(r.W.Handles) > 1 {
+		op.H = rapid.IntRange(0, len(r.W.Handles)-1).Draw(rt, "ghost.h")
+	}
+	return op, true
 }
 
 func genDropColl(rt *rapid.T, r *Run) (Op, bool) {
